@@ -37,7 +37,10 @@ def run(ctx):
         for (t, l) in rejected:
             ev = rows[t - 1]["ev"][0]
             if ev["op"] == "Dial":
-                if not ev["returned"] or ev["elapsedMs"] > ev["deadlineMs"] + 2000:
+                if ev.get("panic"):
+                    key, what = "C15/dial-panic/" + ev["behaviour"], "%s against a %s server panicked instead of returning a connection or an error: %s" % (
+                        ev["how"], ev["behaviour"], ev["panic"])
+                elif not ev["returned"] or ev["elapsedMs"] > ev["deadlineMs"] + 2000:
                     key, what = "C15/dial-deadline/" + ev["behaviour"], "%s against a %s server did not return by its deadline (%d ms, waited %d ms)" % (
                         ev["how"], ev["behaviour"], ev["deadlineMs"], ev["elapsedMs"])
                 else:
